@@ -95,8 +95,12 @@ type zzWorld struct {
 }
 
 func zzStart(store *zzStore, locker Locker) *zzWorld {
+	return zzStartWithCache(store, locker, 1024)
+}
+
+func zzStartWithCache(store *zzStore, locker Locker, cacheSize int) *zzWorld {
 	w := &zzWorld{store: store, monitor: &zzMonitor{}, ctx: context.Background()}
-	w.commander = New(store, locker, NewCompiler(1024), NewReferencer(), w.monitor)
+	w.commander = New(store, locker, NewCompiler(cacheSize), NewReferencer(), w.monitor)
 	if err := w.commander.Init(w.ctx); err != nil {
 		panic(err)
 	}
